@@ -4,10 +4,11 @@ import BromeliaVerif.Properties.C17
 namespace BV.C12
 open BV BV.Decorate BV.ResultCode BV.Spec
 
-/-- the handler's answer is well-formed for decoration: E and R clear, Message Length matching its
-    content, and a Session-Id AVP present whenever the request has one -/
-def Pre (a : Ans) (r : Req) : Prop :=
-  ebit a.flags = false ∧ rbit a.flags = false ∧ a.length = msgSize a ∧ (r.session.isSome → a.session.isSome)
+/-- the handler's answer is well-formed for decoration: it is an answer (R clear) whose Message
+    Length matches its content. (It may or may not carry a Session-Id AVP; it may already carry the E
+    flag.) -/
+def Pre (a : Ans) (_r : Req) : Prop :=
+  rbit a.flags = false ∧ a.length = msgSize a
 
 theorem copySession_spec (a o : Ans) (r : Req) (h : copySession a r = .ok o) :
     o.flags = a.flags ∧ o.app = a.app ∧ o.hbh = a.hbh ∧ o.e2e = a.e2e ∧ o.resultCode = a.resultCode ∧
@@ -16,49 +17,45 @@ theorem copySession_spec (a o : Ans) (r : Req) (h : copySession a r = .ok o) :
   unfold copySession at h
   cases hrs : r.session with
   | none => simp only [hrs] at h; cases h; simp
-  | some d =>
-    simp only [hrs] at h
-    cases has : a.session with
-    | none => simp [has] at h
-    | some d0 => simp only [has] at h; cases h; simp [msgSize]
+  | some d => simp only [hrs] at h; cases h; simp [msgSize]
 
 theorem setError_spec (a o : Ans) (h : setError a = .ok o) :
     o.app = a.app ∧ o.hbh = a.hbh ∧ o.e2e = a.e2e ∧ o.session = a.session ∧ o.resultCode = a.resultCode ∧
     o.hasExp = a.hasExp ∧ o.rest = a.rest ∧ o.length = a.length ∧
-    (errorFamily a.resultCode = true → o.flags = a.flags + 32 ∧ rbit a.flags = false ∧ ebit a.flags = false) ∧
-    (errorFamily a.resultCode = false → o.flags = a.flags) := by
+    (errorFamily a.resultCode = true → ebit a.flags = false → o.flags = a.flags + 32) ∧
+    (errorFamily a.resultCode = false ∨ ebit a.flags = true → o.flags = a.flags) := by
   unfold setError at h
   by_cases hf : errorFamily a.resultCode = true
   · simp only [hf, ↓reduceIte] at h
-    split at h
-    · cases h
-    · rename_i hb; cases h; simp_all
+    by_cases he : ebit a.flags = true
+    · simp only [he, ↓reduceIte] at h; cases h; simp_all
+    · simp only [he, Bool.false_eq_true, ↓reduceIte] at h
+      split at h
+      · cases h
+      · cases h; simp_all
   · simp only [hf, Bool.false_eq_true, ↓reduceIte] at h; cases h; simp_all
 
 theorem ebit_add32 (f : Nat) (h : ebit f = false) : ebit (f + 32) = true := by
   unfold ebit at *; simp at *; omega
 
-/-- under the guard decoration always succeeds -/
+/-- under the guard decoration always succeeds: whatever the handler's answer carries, one answer can
+    be sent -/
 theorem decorate_ok (a : Ans) (r : Req) (h : Pre a r) : ∃ o, decorate a r = .ok o := by
-  obtain ⟨he, hr, _, hs⟩ := h
+  obtain ⟨hr, _⟩ := h
   unfold decorate
   have h2 : ∃ a2, copySession (copyIds a r) r = .ok a2 := by
-    unfold copySession
-    cases hrs : r.session with
-    | none => exact ⟨_, rfl⟩
-    | some d =>
-      have := hs (by simp [hrs])
-      cases has : a.session with
-      | none => simp [has] at this
-      | some d0 => simp [copyIds, has]
+    unfold copySession; cases r.session <;> exact ⟨_, rfl⟩
   obtain ⟨a2, h2⟩ := h2
   have s2 := copySession_spec _ _ _ h2
   rw [h2]; simp only
   have h3 : ∃ a3, setError a2 = .ok a3 := by
     unfold setError
     have hr2 : rbit a2.flags = false := by rw [s2.1]; exact hr
-    have he2 : ebit a2.flags = false := by rw [s2.1]; exact he
-    split <;> simp [hr2, he2]
+    split
+    · split
+      · exact ⟨_, rfl⟩
+      · simp [hr2]
+    · exact ⟨_, rfl⟩
   obtain ⟨a3, h3⟩ := h3
   rw [h3]; exact ⟨_, rfl⟩
 
@@ -81,11 +78,11 @@ theorem decorate_identity (a o : Ans) (r : Req) (h : decorate a r = .ok o) :
   · rw [(hd a3).2.2.1, s3.2.2.1, s2.2.2.2.1]; rfl
   · intro d hd'; rw [(hd a3).2.2.2, s3.2.2.2.1]; exact s2.2.2.2.2.2.2.2.1 d hd'
 
-/-- error flag: set exactly when the handler's Result-Code is in the 3xxx, 4xxx or 5xxx family —
-    for every code (numeric families by C17) -/
-theorem error_flag_iff_family (a o : Ans) (r : Req) (hp : Pre a r) (h : decorate a r = .ok o) :
+/-- error flag: for an answer that arrives with the E flag clear it is set exactly when the handler's
+    Result-Code is in the 3xxx, 4xxx or 5xxx family — for every code (numeric families by C17); an E
+    flag the handler set itself is kept -/
+theorem error_flag_iff_family (a o : Ans) (r : Req) (he : ebit a.flags = false) (h : decorate a r = .ok o) :
     ebit o.flags = true ↔ ∃ n, a.resultCode = some n ∧ (inFamily 3 n ∨ inFamily 4 n ∨ inFamily 5 n) := by
-  obtain ⟨he, hr, _, _⟩ := hp
   have hfam : errorFamily a.resultCode = true ↔ ∃ n, a.resultCode = some n ∧ (inFamily 3 n ∨ inFamily 4 n ∨ inFamily 5 n) := by
     unfold errorFamily
     cases a.resultCode with
@@ -105,11 +102,24 @@ theorem error_flag_iff_family (a o : Ans) (r : Req) (hp : Pre a r) (h : decorate
   have hfl : a2.flags = a.flags := by rw [s2.1]; rfl
   rw [hflag]
   by_cases hf : errorFamily a.resultCode = true
-  · have := s3.2.2.2.2.2.2.2.2.1 (by rw [hrc]; exact hf)
-    rw [this.1, hfl]; simp [hf, ebit_add32 _ he]
+  · have := s3.2.2.2.2.2.2.2.2.1 (by rw [hrc]; exact hf) (by rw [hfl]; exact he)
+    rw [this, hfl]; simp [hf, ebit_add32 _ he]
   · have hf' : errorFamily a.resultCode = false := by simpa using hf
-    have := s3.2.2.2.2.2.2.2.2.2 (by rw [hrc]; exact hf')
+    have := s3.2.2.2.2.2.2.2.2.2 (.inl (by rw [hrc]; exact hf'))
     rw [this, hfl]; simp [hf', he]
+
+theorem preset_error_flag_kept (a o : Ans) (r : Req) (he : ebit a.flags = true) (h : decorate a r = .ok o) :
+    o.flags = a.flags := by
+  unfold decorate at h
+  split at h; · cases h
+  rename_i a2 h2
+  split at h; · cases h
+  rename_i a3 h3
+  cases h
+  have s2 := copySession_spec _ _ _ h2
+  have s3 := setError_spec _ _ h3
+  have hflag : (dropRc a3).flags = a3.flags := by unfold dropRc; split <;> rfl
+  rw [hflag, s3.2.2.2.2.2.2.2.2.2 (.inr (by rw [s2.1]; exact he)), s2.1]; rfl
 
 /-- a Result-Code is never sent alongside an Experimental-Result -/
 theorem no_result_code_with_experimental (a o : Ans) (r : Req) (h : decorate a r = .ok o) :
@@ -126,7 +136,7 @@ theorem no_result_code_with_experimental (a o : Ans) (r : Req) (h : decorate a r
 
 /-- the Message Length of the sent answer matches its final content -/
 theorem length_matches (a o : Ans) (r : Req) (hp : Pre a r) (h : decorate a r = .ok o) : o.length = msgSize o := by
-  obtain ⟨_, _, hl, _⟩ := hp
+  obtain ⟨_, hl⟩ := hp
   unfold decorate at h
   split at h; · cases h
   rename_i a2 h2
@@ -147,20 +157,16 @@ theorem length_matches (a o : Ans) (r : Req) (hp : Pre a r) (h : decorate a r = 
     | some n => rw [l3]; simp [msgSize, hrc]
   · exact l3
 
-/-- outside the guard: a request Session-Id with an answer that has none raises AttributeError; a
-    pre-set E (or R) flag with an error-family Result-Code raises the library's header error -/
-theorem guard_errors (a : Ans) (r : Req) :
-    (r.session.isSome ∧ a.session = none → decorate a r = .error .attribute) ∧
-    (r.session = none ∧ errorFamily a.resultCode = true ∧ (ebit a.flags = true ∨ rbit a.flags = true) →
-      decorate a r = .error .header) := by
-  constructor
-  · rintro ⟨hs, ha⟩
-    cases hrs : r.session with
-    | none => simp [hrs] at hs
-    | some d => simp [decorate, copySession, copyIds, hrs, ha]
-  · rintro ⟨hs, hf, hb⟩
-    simp only [decorate, copySession, copyIds, hs, setError, hf, ↓reduceIte]
-    rcases hb with hb | hb <;> simp [hb]
+/-- outside the guard: an "answer" with the R bit set and an error-family Result-Code raises the
+    library's header error -/
+theorem guard_errors (a : Ans) (r : Req) (hf : errorFamily a.resultCode = true) (he : ebit a.flags = false)
+    (hr : rbit a.flags = true) : decorate a r = .error .header := by
+  unfold decorate copySession copyIds
+  cases r.session <;> simp [setError, hf, he, hr]
+
+/-- an answer without Session-Id AVP gets the request's Session-Id added -/
+theorem session_added (a o : Ans) (r : Req) (d : Bytes) (hs : r.session = some d) (h : decorate a r = .ok o) :
+    o.session = some d := (decorate_identity a o r h).2.2.2 d hs
 
 -- non-vacuity: DIAMETER_UNABLE_TO_COMPLY (5012) gets the error flag and the request's identity
 example : ∃ o, decorate ⟨0x40, some 1, some 0, some 0, some [1], some 5012, false, 40, 20 + 40 + 12 + 12⟩
@@ -168,6 +174,6 @@ example : ∃ o, decorate ⟨0x40, some 1, some 0, some 0, some [1], some 5012, 
     o.session = some [2, 3] ∧ o.length = 84 := ⟨_, rfl, by decide, rfl, rfl, by decide⟩
 example : Pre ⟨0x40, some 1, some 0, some 0, some [1], some 5012, false, 40, 20 + 40 + 12 + 12⟩
     ⟨some 16777251, some 7, some 9, some [2, 3]⟩ := by
-  refine ⟨by decide, by decide, by decide, by simp⟩
+  refine ⟨by decide, by decide⟩
 
 end BV.C12
